@@ -84,10 +84,22 @@ type State struct {
 	oldMode int
 	oldView *State // private copy of the old state while evaluating old(e): reads and (spec-local) writes go there
 	epoch   int
+	etree   *epochTree // set after a join of paths with different heap epochs: untouched components resolve per path
+}
+
+// epochTree describes the heap base of a state that was merged from paths in different heap epochs.
+type epochTree struct {
+	epoch    int
+	branches []epochBranch
+}
+
+type epochBranch struct {
+	pc  Term
+	sub *epochTree
 }
 
 func (s *State) clone() *State {
-	n := &State{pc: s.pc, alloc: s.alloc, oldMode: s.oldMode, epoch: s.epoch, oldView: s.oldView}
+	n := &State{pc: s.pc, alloc: s.alloc, oldMode: s.oldMode, epoch: s.epoch, oldView: s.oldView, etree: s.etree}
 	n.cells = make(map[*Cell]Value, len(s.cells))
 	for k, v := range s.cells {
 		n.cells[k] = v
@@ -235,6 +247,17 @@ func (ti *TypeInfo) fieldAcc(t types.Type, i int) string {
 }
 
 func (ti *TypeInfo) zero(t types.Type) Term {
+	if kt, ok := isVcSet(t); ok {
+		// the empty set
+		srt := arraySort(ti.sortOf(kt), SBool)
+		return Term{fmt.Sprintf("((as const %s) false)", srt), srt}
+	}
+	if et, ok := isVcSeq(t); ok {
+		if es := ti.sortOf(et); es == SInt || es == SBool {
+			srt := arraySort(SInt, es)
+			return Term{fmt.Sprintf("((as const %s) %s)", srt, ti.zero(et).S), srt}
+		}
+	}
 	switch u := t.Underlying().(type) {
 	case *types.Basic:
 		switch {
